@@ -5,7 +5,7 @@ import itertools
 import random
 
 from .. import lib
-from ..engine import par, report, sched
+from ..engine import bases, par, report, sched
 from ..ref import iban as ri
 from ..ref import lookup
 from . import c07
@@ -66,28 +66,35 @@ def fingerprint():
     return hash(tuple(out))
 
 
-def method_menu(m: str, limit: int = 3000):
-    """Account numbers by (remainder class, verdict), found with solo runs of the real method and
-    chosen so that their remainders are pairwise different wherever possible (two calls that
-    leave the same scratch value behind could never expose an exchange of that value)."""
+def method_menu(m: str, limit: int = 3000, max_entries: int = 9):
+    """Account numbers found with solo runs of the real method, chosen to cover every (remainder
+    class, verdict) combination and every (branch of the published rule, verdict) combination, with
+    pairwise different remainders wherever possible (two calls that leave the same scratch value
+    behind could never expose an exchange of that value).  Keys: (remainder class, accepted,
+    branch)."""
+    from ..ref import bbk
     alg = lib.checksum.algorithms["DE:" + m]
-    by_key: dict = {}
     cands = [f"{n:010d}" for n in range(limit)] + [f"{n * 7919 % 10 ** 10:010d}" for n in range(1, 400)]
     cands += [a for b in c07.bases_for(m) for a in c07.deviations(b, 1)]
+    info = []
     for a in cands:
         k, v = lib.outcome(alg.validate, [a], "")
         r = getattr(alg, "remainder", None)
         rc = r if r in (0, 1) else "x"
-        key = (rc, (k, v) == ("ok", True))
-        lst = by_key.setdefault(key, [])
-        if len(lst) < 40:
-            lst.append((a, r))
-    found, used = {}, set()
-    for key in sorted(by_key, key=str):
-        pick = next(((a, r) for a, r in by_key[key] if r not in used), by_key[key][0])
-        if key[0] == "x":
-            used.add(pick[1])
-        found[key] = pick[0]
+        info.append((a, r, rc, (k, v) == ("ok", True), bbk.feature(m, a)))
+    found, used_r, covered = {}, set(), set()
+    want = sorted({(rc, acc) for _, _, rc, acc, _ in info}, key=str)
+    want_f = sorted({(ft, acc) for _, _, _, acc, ft in info}, key=str)
+    for goal_kind, goals in (("rc", want), ("ft", want_f)):
+        for g in goals:
+            if g in covered or len(found) >= max_entries:
+                continue
+            pool = [t for t in info if ((t[2], t[3]) if goal_kind == "rc" else (t[4], t[3])) == g]
+            pick = next((t for t in pool if t[1] not in used_r), pool[0])
+            used_r.add(pick[1])
+            covered.add((pick[2], pick[3]))
+            covered.add((pick[4], pick[3]))
+            found[(pick[2], pick[3], pick[4])] = pick[0]
     return found
 
 
@@ -116,14 +123,16 @@ def build_harnesses(tier: str):
         deep_done = set()
         all_pairs = list(itertools.combinations_with_replacement(keys, 2))
         if quick and not rb:
-            # non-read-back methods: one pair per pair of remainder classes
+            # non-read-back methods: pairs that differ in remainder class or in rule branch, one per
+            # combination, at most 8
             seen_cls, sel = set(), []
             for a, b in all_pairs:
-                cp = (str(a[0]), str(b[0]))
-                if a != b and cp not in seen_cls and (a[0] != b[0] or a[0] == "x"):
+                cp = (str(a[0]), str(b[0]), a[2], b[2])
+                if a != b and cp not in seen_cls and (a[0] != b[0] or a[2] != b[2] or a[0] == "x"):
                     seen_cls.add(cp)
                     sel.append((a, b))
-            all_pairs = sel or all_pairs[:1]
+            sel.sort(key=lambda ab: (ab[0][2] == ab[1][2], str(ab)))
+            all_pairs = sel[:8] or all_pairs[:1]
         for a, b in all_pairs:
             cls_pair = (str(a[0]), str(b[0]))
             differ = a[0] != b[0] or (a[0] == "x" and a != b)
@@ -219,6 +228,14 @@ def build_harnesses(tier: str):
         "nat-bad-37040044": {"op": "iban", "text": iban_for("37040044", "0532013001"), "nat": True},
         "iban-bank-name": {"op": "iban_bank_name", "text": valid},
     })
+    ctl.update({
+        "parse-typo": {"op": "iban", "text": "DE89370400440532013001"},
+        "parse-gb-typo": {"op": "iban", "text": "GB29NWBK60161331926818"},
+        "parse-89-other": {"op": "iban", "text": bases.iban_text("DE", "500105170000000123")},
+    })
+    # a valid text and a mistyped one carrying the same check digits (a check-digit scratch value
+    # exchanged between threads would make the typo pass)
+    pairs += [("parse", "parse-typo"), ("parse-gb", "parse-gb-typo"), ("parse-typo", "parse-gb-typo")]
     # two calls that touch the SAME registry entry (same country and bank code)
     pairs += [("lookup", "lookup"), ("candidates", "candidates"), ("lookup-37040044", "iban-bic"),
               ("candidates-37040044", "iban-bank-name"), ("lookup-37040044", "nat-bad-37040044"),
@@ -237,6 +254,8 @@ def build_harnesses(tier: str):
 def run_harness(args):
     name, specs, bound, opcode, tier = args
     part = par.Part()
+    lib.IBAN("DE89370400440532013000").country  # pre-load pycountry (its real lock is never contended)
+    lib.BIC("GENODEM1GLS").country
     mk = lambda: [make_op(s) for s in specs]  # noqa: E731
     solo_before = [op() for op in mk()]
     traced, steps = sched.warm_up(mk(), opcode)
@@ -285,7 +304,81 @@ def run_harness(args):
     return part.done()
 
 
+COLD_PAIRS = [
+    ("lookup", "lookup2"), ("lookup", "iban-bic"), ("nat-de-listed", "lookup-37040044"),
+    ("generate-be", "generate-es"), ("nat-be", "nat-fr"), ("random", "random-es"),
+    ("candidates", "lookup"), ("parse", "bic"), ("generate-be", "nat-be-bad"), ("iban-bank-name", "lookup"),
+]
+
+
+def cold_specs():
+    valid = "DE89370400440532013000"
+    return {
+        "lookup": {"op": "from_bank_code", "country": "DE", "code": "43060967"},
+        "lookup2": {"op": "from_bank_code", "country": "FR", "code": "30004"},
+        "lookup-37040044": {"op": "from_bank_code", "country": "DE", "code": "37040044"},
+        "iban-bic": {"op": "iban_bic", "text": valid},
+        "iban-bank-name": {"op": "iban_bank_name", "text": valid},
+        "nat-de-listed": {"op": "iban", "text": valid, "nat": True},
+        "generate-be": {"op": "generate", "country": "BE", "bank": "539", "account": "0075470"},
+        "generate-es": {"op": "generate", "country": "ES", "bank": "2100", "account": "0200051332",
+                        "branch": "0418"},
+        "nat-be": {"op": "iban", "text": "BE68539007547034", "nat": True},
+        "nat-be-bad": {"op": "iban", "text": "BE41539007547035", "nat": True},
+        "nat-fr": {"op": "iban", "text": "FR1420041010050500013M02606", "nat": True},
+        "random": {"op": "random", "country": "DE", "seed": 5},
+        "random-es": {"op": "random", "country": "ES", "seed": 2},
+        "candidates": {"op": "candidates", "country": "FR", "code": "30004"},
+        "parse": {"op": "iban", "text": valid},
+        "bic": {"op": "bic", "text": "GENODEM1GLS"},
+    }
+
+
+def run_cold_harness(args):
+    """Both operations are the FIRST library calls of their process: every execution (and every solo
+    run) starts in its own fork of the pristine post-import process."""
+    _, a, b, bound, tier = args
+    part = par.Part()
+    sp = cold_specs()
+    specs = [sp[a], sp[b]]
+    name = f"cold:{a}x{b}"
+    solo = [par.in_child(_solo, s) for s in specs]
+    outcomes = set()
+    for ch, results, steps, pre, log in sched.explore_cold(specs, make_op, bound):
+        part.count((name, ch.answers), nontrivial=pre > 0)
+        part.stat("scheduling_steps_executed", sum(steps))
+        outcomes.add(repr(results))
+        if results != solo:
+            wrong = [i for i, (x, y) in enumerate(zip(results, solo)) if x != y]
+            part.violation("cold-start:thread-result-differs-from-solo",
+                           {"kind": "c14cold", "harness": name, "ops": specs, "answers": list(ch.answers),
+                            "switches": log, "wrong_threads": wrong}, solo, results)
+    part.stat("harnesses")
+    part.stat("cold_start_harnesses")
+    part.stat("harnesses_with_more_than_one_outcome_vector", int(len(outcomes) > 1))
+    part.stat(f"bound_{bound}_line_harnesses")
+    part.sample({"harness": name, "ops": specs, "preemption_bound": bound, "cold_start": True,
+                 "switch_offers_per_source_line_and_thread": sched.COLD_PER_LINE_LIMIT})
+    return part.done()
+
+
+def _solo(spec):
+    return make_op(spec)()
+
+
+def shard(args):
+    return run_cold_harness(args) if args[0] == "cold" else run_harness(args)
+
+
 def replay(case: dict) -> dict:
+    if case["kind"] == "c14cold":
+        specs = case["ops"]
+        solo = [par.in_child(_solo, s) for s in specs]
+        res = [par.in_child(sched._cold_exec, specs, make_op, tuple(case["answers"]), None, False)[2]
+               for _ in range(2)]
+        if res[0] != res[1]:
+            raise report.HarnessError(f"cold schedule replay is not deterministic: {res}")
+        return {"ok": res[0] == solo, "expected": solo, "observed": res[0]}
     specs = case["ops"]
     mk = lambda: [make_op(s) for s in specs]  # noqa: E731
     solo = [op() for op in mk()]
@@ -299,20 +392,21 @@ def replay(case: dict) -> dict:
 
 def main(tier: str) -> int:
     run = report.Run(PID, tier, "model_checking", RULE)
-    lib.IBAN("DE89370400440532013000").country  # pre-load pycountry (its lock is never contended)
-    lib.BIC("GENODEM1GLS").country
-    hs = build_harnesses(tier)
+    # this process never calls the library itself (cold-start harnesses fork from it)
+    hs = par.in_child(build_harnesses, tier)
     hs.sort(key=lambda h: -(h[2] * 10 + (5 if h[3] else 0) + len(h[1])))
-    par.run_shards(run, run_harness, [h + (tier,) for h in hs])
+    cold = [("cold", a, b, 1 if tier == "quick" else 2, tier) for a, b in COLD_PAIRS]
+    par.run_shards(run, shard, cold + [h + (tier,) for h in hs])
     bounds = {}
-    for name, specs, bound, opcode in hs:
-        key = f"{len(specs)} threads, <= {bound} preemptions, {'opcode' if opcode else 'line'} granularity"
+    for name, specs, bound, opcode in hs + [(f"cold:{a}x{b}", [0, 0], c[3], False) for c in cold
+                                            for a, b in [(c[1], c[2])]]:
+        key = ("cold start, " if name.startswith("cold:") else "") + f"{len(specs)} threads, <= {bound} preemptions, {'opcode' if opcode else 'line'} granularity"
         bounds[key] = bounds.get(key, 0) + 1
     run.extra.update({
         "states": int(run.stats.get("distinct_switch_points", 0)),
         "transitions": int(run.stats.get("scheduling_steps_executed", 0)),
         "schedules_executed": int(run.evaluations),
-        "harnesses": len(hs),
+        "harnesses": len(hs) + len(cold), "cold_start_harnesses": len(cold),
         "bounds": bounds,
         "states_note": "states = distinct (harness, thread, step index, next thread) switch points "
                        "exercised; transitions = scheduling steps executed over all schedules",
